@@ -144,7 +144,14 @@ def run(ctx):
         ctx.coverage["two_rank_shutdown(adversarial peer)"] = ctx.coverage.pop("peer_mode")
     # ---- full single-rank runs of GenModel instances (incl. predicates already true at LP_INIT, tiny thresholds, termination
     # times): every run must return within the step budget; a hang that does not carry the F1 signature is a violation
+    keep = {k: ctx.coverage.get(k) for k in ("evaluations", "distinct_nontrivial", "rule", "traces_validated_against_impl",
+                                              "trace_lines_compared", "totals", "outcomes")}
     sagg = runlib.run_matrix(ctx, "full runs return (GenModel, scheduled)", 30, 800, oracle_keys=(), threads=(1, 2, 3, 4), tterm=False)
+    for k, v in keep.items():  # the headline numbers of this check stay those of the lock-step replay
+        if v is None:
+            ctx.coverage.pop(k, None)
+        else:
+            ctx.coverage[k] = v
     if sagg:
         ctx.coverage["full_runs"] = {"runs": sagg.runs, "outcomes": sagg.outcomes, "known_F1_hangs": sagg.f1}
     # ---- models whose event population never dies out (frozen LPs keep ticking; no Lean twin): such a run can only end through
